@@ -219,7 +219,11 @@ def check(cid, tier, seed):
         log(f"infrastructure failure in correspondence: {type(e).__name__}: {e}\n{traceback.format_exc()}")
         return 2
     probes = mod.probes(rng) if hasattr(mod, "probes") else []
-    probes = list(probes) + src.live_object_anchors()  # the objects Python binds run the anchored definitions
+    try:
+        probes = list(probes) + src.live_object_anchors()  # the objects Python binds run the anchored definitions
+    except RuntimeError as e:
+        log(f"infrastructure failure: {e}")
+        return 2
     for p in probes:
         obligations.append(dict(name="probe:" + p["name"], kind="probe", ok=p["ok"], detail=p.get("detail", "")))
     broken = [o for o in obligations if not o["ok"]]
